@@ -1,10 +1,10 @@
 (* C13/Props.v — the property theorems, nothing else.
    Model: C13/Model.v (src/shlex.py, src/callbacks.py Tokenizer/tokenize, utils.str.dqrepr, CPython unicode_escape),
-   C13/Utf8.v (strict UTF-8, Latin-1).  Proofs: Utf8.v, Lemmas.v, Roundtrip.v, Dqrepr.v, Brackets.v, Nested.v, Render.v, Lookup.v, Repeat.v.
+   C13/Utf8.v (strict UTF-8, Latin-1).  Proofs: Utf8.v, Lemmas.v, Roundtrip.v, Dqrepr.v, Brackets.v, Nested.v, Render.v, Lookup.v, Repeat.v, Domain.v.
    [named] is the unicodedata name table behind \N{...}: any function. *)
 From Coq Require Import List NArith.
 Import ListNotations.
-Require Import Base.Wire Base.PyStr C13.Utf8 C13.Model C13.Lemmas C13.Roundtrip C13.Dqrepr C13.Brackets C13.Nested C13.Render C13.Lookup C13.Repeat.
+Require Import Base.Wire Base.PyStr C13.Utf8 C13.Model C13.Lemmas C13.Roundtrip C13.Dqrepr C13.Brackets C13.Nested C13.Render C13.Lookup C13.Repeat C13.Domain.
 
 (* Tokenising any text (any code points, lone surrogates included) under any
    configuration yields a tree of string tokens or SyntaxError, never another failure. *)
@@ -57,33 +57,28 @@ Print Assumptions C13_dqrepr_roundtrip.
 (* Unquoted brackets produce exactly the corresponding nesting.  For every tree l of bare words,
    of any depth and width (wfc: every leaf is a non-empty word whose characters are neither whitespace
    nor separators of the configuration), the text render_top l (words and sub-commands separated by one
-   space, a node written  lb children rb) tokenises to exactly l.  Holds for every bracket pair that is
-   lexically a bracket (all of ValidBrackets.validStrings: lemma valid_brackets_lex_ok in Nested.v),
-   every pipe setting and quote set. *)
+   space, a node written  lb children rb) tokenises to exactly l.  Holds for every configuration that can exist
+   (cfg_valid: quote set over ValidQuotes' characters, bracket pair from ValidBrackets.validStrings -- regenerated
+   tables; the lexical side conditions are derived from them in Domain.v), every pipe setting. *)
 Theorem C13_brackets :
-  forall named (c : cfg) lb rb (l : list tree),
-  c_nested c = true -> c_brackets c = Some (lb, rb) ->
-  is_ws lb = false -> is_ws rb = false ->
-  mem lb (c_quotes c) = false -> mem rb (c_quotes c) = false ->
-  N.eqb lb rb = false -> N.eqb lb gen.T13.PIPE = false ->
-  forallb (wfc (tk_of c)) l = true ->
+  forall named (c : cfg) lb rb,
+  cfg_valid c = true -> c_nested c = true -> c_brackets c = Some (lb, rb) ->
+  forall l : list tree, forallb (wfc (tk_of c)) l = true ->
   tokenize named c (render_top lb rb l) = Ok l.
-Proof. exact brackets_render. Qed.
+Proof. exact brackets_valid_render. Qed.
 Print Assumptions C13_brackets.
 
 (* Unbalanced brackets give SyntaxError, not a tree: (1) text_unclosed = balanced trees pre, then an opening
    bracket followed by balanced trees l and the end of the text (Missing "]"); (2) text_spurious = balanced
    trees pre, then a closing bracket that closes nothing, followed by ANY text (Spurious "]"). *)
 Theorem C13_brackets_unbalanced :
-  forall named (c : cfg) lb rb (pre l : list tree) (rest : str),
-  c_nested c = true -> c_brackets c = Some (lb, rb) ->
-  is_ws lb = false -> is_ws rb = false ->
-  mem lb (c_quotes c) = false -> mem rb (c_quotes c) = false ->
-  N.eqb lb rb = false -> N.eqb lb gen.T13.PIPE = false -> N.eqb rb gen.T13.PIPE = false ->
+  forall named (c : cfg) lb rb,
+  cfg_valid c = true -> c_nested c = true -> c_brackets c = Some (lb, rb) ->
+  forall (pre l : list tree) (rest : str),
   forallb (wfc (tk_of c)) pre = true -> forallb (wfc (tk_of c)) l = true ->
   tokenize named c (text_unclosed lb rb pre l) = Raise SyntaxError
   /\ tokenize named c (text_spurious lb rb pre rest) = Raise SyntaxError.
-Proof. exact brackets_unbalanced. Qed.
+Proof. exact brackets_valid_unbalanced. Qed.
 Print Assumptions C13_brackets_unbalanced.
 
 (* With nesting disabled (supybot.commands.nested off, or brackets set to the empty string) brackets are
@@ -104,26 +99,22 @@ Print Assumptions C13_brackets_literal.
    every list of scalar-value strings.  In particular a quoted argument that is exactly
    "]" or "[" (or "|", or a quote) inside a nested command stays a string. *)
 Theorem C13_quote_roundtrip_nested :
-  forall named (c : cfg) lb rb (n : nat) (args : list str),
-  c_nested c = true -> c_brackets c = Some (lb, rb) -> mem DQ (c_quotes c) = true ->
-  is_ws lb = false -> is_ws rb = false ->
-  mem lb (c_quotes c) = false -> mem rb (c_quotes c) = false ->
-  N.eqb lb rb = false -> N.eqb lb gen.T13.PIPE = false ->
-  Forall (fun a => forallb scalar a = true) args ->
+  forall named (c : cfg) lb rb,
+  cfg_valid c = true -> c_nested c = true -> c_brackets c = Some (lb, rb) ->
+  forall (n : nat) (args : list str),
+  mem DQ (c_quotes c) = true -> Forall (fun a => forallb scalar a = true) args ->
   tokenize named c (nested_mq lb rb n args) = Ok (nest n (map Leaf args)).
-Proof. exact quote_roundtrip_nested. Qed.
+Proof. exact quote_valid_nested. Qed.
 Print Assumptions C13_quote_roundtrip_nested.
 
 (* The same with dqrepr (what a plugin re-serialising arguments into a nested command does): for all code points. *)
 Theorem C13_dqrepr_roundtrip_nested :
-  forall named (c : cfg) lb rb (n : nat) (args : list str),
-  c_nested c = true -> c_brackets c = Some (lb, rb) -> mem DQ (c_quotes c) = true ->
-  is_ws lb = false -> is_ws rb = false ->
-  mem lb (c_quotes c) = false -> mem rb (c_quotes c) = false ->
-  N.eqb lb rb = false -> N.eqb lb gen.T13.PIPE = false ->
-  Forall (fun a => forallb valid_cp a = true) args ->
+  forall named (c : cfg) lb rb,
+  cfg_valid c = true -> c_nested c = true -> c_brackets c = Some (lb, rb) ->
+  forall (n : nat) (args : list str),
+  mem DQ (c_quotes c) = true -> Forall (fun a => forallb valid_cp a = true) args ->
   tokenize named c (nested_dq lb rb n args) = Ok (nest n (map Leaf args)).
-Proof. exact dqrepr_roundtrip_nested. Qed.
+Proof. exact dqrepr_valid_nested. Qed.
 Print Assumptions C13_dqrepr_roundtrip_nested.
 
 (* Which configuration a message is tokenised with (callbacks.tokenize(s, channel, network) -> Value.getSpecific /
@@ -164,3 +155,13 @@ Theorem C13_session_pure :
   forall named (h : list event) (st : objstore), session named st h = calls named h.
 Proof. exact session_pure. Qed.
 Print Assumptions C13_session_pure.
+
+(* The domain on which the model is a faithful picture of shlex: in every configuration that can exist no quote
+   character collides with shlex's state names 'a' and ' ' (shlex tests `self.state in self.quotes`) or is the
+   backslash.  Outside cfg_valid the theorems above still hold of the MODEL but say nothing about the code
+   (Tokenizer(quotes='a') behaves differently); conf rejects such values (checked live by the harness). *)
+Theorem C13_model_domain :
+  forall c : cfg, cfg_valid c = true ->
+  mem 97 (c_quotes c) = false /\ mem 32 (c_quotes c) = false /\ mem BSL (c_quotes c) = false.
+Proof. exact model_domain. Qed.
+Print Assumptions C13_model_domain.
